@@ -22,7 +22,8 @@ EXPLANATION = (
     "open_parquet_source validates before opening; listings raise on '..'."
     ' Also: every return of the two sanitisers is sanitised (no prefix-tested fast path).'
     " (R4) no lexical path normalisation (normpath / abspath) anywhere in the package: '..' reaches the resolver's realpath + boundary check unfolded."
-    ' (R5) key mapping round trip by scenario evaluation incl. sibling-prefix and doubled-slash keys (C20.R9); (R6) on S3 the root is enforced by _get_s3_key: only the backend, the range reader and the lock providers hold the raw client, and every key they use comes from _get_s3_key / create_lock.')
+    ' (R5) key mapping round trip by scenario evaluation incl. sibling-prefix and doubled-slash keys (C20.R9); (R6) on S3 the root is enforced by _get_s3_key: only the backend, the range reader and the lock providers hold the raw client, and every key they use comes from _get_s3_key / create_lock.'
+    ' R2: the canonical paths are compared unaltered (no casefold / lower / replace); R3: os.walk does not follow symlinks, every path handed out passed the escape test.')
 NOT_DECIDED = "behaviour of realpath on symlink arrangements at run time; TOCTOU between check and use"
 
 SANITISERS = {"_resolve_path", "_get_arrow_path", "_real_base_path"}
@@ -335,6 +336,17 @@ def r2(ctx: Ctx) -> None:
             ok = "os.path.realpath" in fns and any(n.endswith("_real_base_path") for n in fns)
             ctx.ob("C17.R2", f, "both operands are canonical (realpath / _real_base_path)", c, ok,
                    f"operands derive from {sorted(x for x in fns if 'path' in x)}")
+            # ... compared AS THEY ARE: a case-folded / lower-cased / otherwise rewritten copy makes distinct directories of a
+            # case-sensitive filesystem compare equal ('<root>/../Warehouse/t' counts as inside 'warehouse/t')
+            host = next((n_ for n_ in g.nodes if n_.kind in ("stmt", "branch", "return") and n_.ast is not None
+                         and any(y is c.ast for y in ast.walk(n_.ast))), None)
+            horg = sl.origins(host.ast, host.id) if host is not None else org
+            lossy = sorted({x.func.attr for x in (horg["calls"] | org["calls"]) if isinstance(x, ast.Call) and isinstance(x.func, ast.Attribute)
+                            and x.func.attr in ("casefold", "lower", "upper", "normcase", "swapcase", "title", "capitalize", "replace",
+                                                "strip", "rstrip", "translate", "encode")})
+            ctx.ob("C17.R2", f, "the canonical paths are compared unaltered", c, not lossy,
+                   "no string rewriting between realpath and the comparison" if not lossy else
+                   f"{lossy} rewrites the canonical path before the containment test: different directories compare equal")
         # the return of the resolved path is dominated by the inside-test; the not-inside edge raises ValueError
         brs = inside_branches(ctx, f)
         rets = []
@@ -468,6 +480,13 @@ def r3(ctx: Ctx) -> None:
         if all_ok:
             unguarded = None
     ok = ok and bool(rels) and unguarded is None
+    # the walk itself stays inside the root: os.walk must not follow directory symlinks (a link to an outside directory would
+    # be listed under an inside-looking name that passes the `..` test), and no DirEntry.is_dir()-driven descent replaces it
+    for w_ in [n for n in lg.calls() if n.callee is not None and n.callee.kind == "prim" and n.callee.name in ("os.walk", "os.fwalk")]:
+        fl_ = kwarg(w_.ast, "followlinks")
+        ctx.ob("C17.R3", lf, "the directory walk does not follow symlinks", w_, fl_ is None or (isinstance(fl_, ast.Constant) and fl_.value is False),
+               "os.walk(..., followlinks=False)" if fl_ is None or (isinstance(fl_, ast.Constant) and fl_.value is False) else
+               "followlinks: a directory symlink leaving the root is listed as if it were table content")
     ctx.ob("C17.R3", lf, "a listed path outside the root raises before it is handed out", brs[0] if brs else None, ok,
            "defence in depth: callers (GC) must not act on an untrustworthy listing (#45)")
 
